@@ -274,6 +274,10 @@ func tamperScenario(w *World, p *Plan, rec *Record) {
 	var samples []string
 	attempts := 12 + r.Intn(10)
 	for a := 0; a < attempts; a++ {
+		if !w.opEnabled(a) {
+			continue
+		}
+		r := w.opRNG(a)
 		n = w.Nodes[r.Intn(len(w.Nodes))]
 		contract := r.Chance(0.5)
 		base, err := w.freshValid(n, r, contract)
